@@ -20,6 +20,8 @@ def dispatch (line : String) : String :=
   | "determinism" :: args => Determinism.handle args
   | "builder" :: args => Builder.handle args
   | "output" :: args => Output.handle args
+  | "imports" :: args => Imports.handle args
+  | "pyimp" :: args => PyImp.handle args
   | _ => "bad-op"
 
 partial def loop (h : IO.FS.Stream) (out : IO.FS.Stream) : IO Unit := do
